@@ -1,18 +1,36 @@
 """C47 — with autoflush on, queries see all pending changes.
 
 Model: lean/SaVerif/Model/Autoflush.lean (a Session with pending adds /
-modifications / deletes over P(id, a), C(id, pid, a); ORM queries, counts, Core
-selects, legacy Query objects made of Table columns / func.count only, Session.get, lazy loads, each with autoflush on / disabled by execution
+modifications / deletes over P(id, a), C(id, pid, a); statements of ten kinds —
+ORM entity select, ORM count, Core select / Core count on the Table, text() ids /
+text() count, select(exists().where(<ORM criteria>)), exists().where(…).select(),
+legacy Query of Table columns / func.count only — each run through EVERY entry
+point that applies — Session.execute(s).all(), Session.scalars(s).all(),
+Session.scalar(s); Query.all(), .first(), .one_or_none() / .scalar(), .count() —
+plus Session.get and lazy loads, each with autoflush on / disabled by execution
 option / inside no_autoflush).  Theorems: lean/SaVerif/Props/C47.lean.
+
+Translator (gen): reads the CURRENT orm/session.py by ast, walks
+Session._execute_internal symbolically along the path of a statement without the
+ORM compile-state plugin (compile_state_cls None) for _scalar_result True / False
+and records whether self._autoflush() (#9809) is called before the statement
+reaches the connection (the `return conn.scalar(...)` fast path resp.
+conn.execute(...)); builds every statement kind on the real library and records
+which carry compile_state_plugin == "orm" -> lean/SaVerif/Gen/AutoflushCfg.lean,
+which the model's autoflush decision table uses and Props/C47.lean proves
+obligations about.
 
 Direct oracle, two independent parts (neither uses the Lean model):
  1. metamorphic, the property verbatim: the same history is replayed on a second
-    Session in which `flush()` is called explicitly before every query / get of an
-    absent identity / lazy load and the operation itself runs inside
-    `no_autoflush`; every such operation must return exactly what the autoflushing
-    Session returned;
+    Session in which `flush()` is called explicitly before every statement / get of
+    an absent identity / lazy load and the operation itself — same statement, same
+    entry point — runs inside `no_autoflush`; every such operation must return
+    exactly what the autoflushing Session returned;
  2. reference: the harness applies every add / modification / delete to a plain
-    dict at once; an autoflushing operation must return the rows that dict holds.
+    dict at once; an autoflushing operation must return what that dict holds, in
+    the form of its entry point (list / first element or None / MultipleResultsFound
+    / row count).
+Violation keys name the entry point (scalar-entrypoint-misses-pending-change, …).
 """
 import os
 import shutil
@@ -23,9 +41,9 @@ PID = "C47"
 LEVEL = "proof"
 LEAN = ["SaVerif.Props.C47"]
 META = {
-    "text": "Lean theorems over the session model for ALL states and pending sets: flush applies every pending INSERT (by induction over session.new: insertAll_spec), UPDATE and DELETE, so the flushed database is the pointwise specification `specDb` (flush_eq_spec); flush is idempotent (flush_flush); therefore an autoflushing query / count / Core select / get of an absent identity / lazy load returns exactly what the same operation returns after an explicit flush (autoflush_query_eq_flush_then_query and siblings) and is evaluated over specDb (query_reflects_pending); with autoflush disabled by option or no_autoflush the operation is evaluated over the unflushed database (no_autoflush_sees_db). Tied to orm/session.py, context.py, strategies.py, loading.py by a differential run on real Sessions over SQLite; the property is re-checked verbatim by a metamorphic twin run (explicit flush + no_autoflush) and by a dict reference.",
-    "note": "Trusted: Lean kernel; correspondence (sampling + exhaustive short sequences); SQLite. Relationship-collection mutation, cascades and bulk UPDATE/DELETE statements (which also autoflush) are not modelled; lazy loads are exercised on a viewonly one-to-many. The theorem content is mostly definitional once the flush is specified; the tie to the code is the differential + metamorphic run.",
-    "technique": "Lean 4 proofs (induction over the pending list, idempotence) + differential correspondence + metamorphic twin execution on SQLite",
+    "text": "Lean theorems over the session model for ALL states and pending sets: flush applies every pending INSERT (by induction over session.new: insertAll_spec), UPDATE and DELETE, so the flushed database is the pointwise specification `specDb` (flush_eq_spec); flush is idempotent (flush_flush); the autoflush decision of Session._execute_internal + orm_pre_session_exec is an explicit table over (statement carries the ORM plugin?, entry point, mode, Session.autoflush) whose ordering facts (the Core autoflush of #9809 precedes the conn.scalar fast path and conn.execute) and plugin column are regenerated from the current source by a translator and proved as obligations (core_autoflush_precedes_scalar_fast_path, core_autoflush_precedes_execute, kind_plugin_table, flushes_table); therefore, for EVERY statement kind (ORM entities, ORM count, Core select/count on the Table, text(), Core exists() over ORM criteria, legacy Query) and EVERY entry point (Session.execute / scalars / scalar, Query.all / first / one_or_none / scalar / count), an autoflushing statement returns and leaves exactly what the same statement through the same entry point returns after an explicit flush, also when run inside no_autoflush (autoflush_query_eq_flush_then_query, ..._no_autoflush, and siblings for get of an absent identity and lazy loads), is evaluated over specDb (query_reflects_pending), and Session.scalar(stmt) is the head of Session.execute(stmt) in every state (scalar_eq_head_of_execute, scalars_eq_execute, first_eq_head_of_all); with autoflush disabled the statement is evaluated over the unflushed database (no_autoflush_sees_db), except that plugin-less statements ignore the execution option (core_ignores_autoflush_option). Tied to orm/session.py, context.py, query.py, strategies.py, loading.py by a differential run on real Sessions over SQLite; the property is re-checked verbatim by a metamorphic twin run (explicit flush + no_autoflush, same entry point) and by a dict reference.",
+    "note": "Trusted: Lean kernel; correspondence (sampling + exhaustive short sequences + the exhaustive write x kind x entry point x mode matrix); SQLite; the translator's symbolic walk of _execute_internal (branches on do_orm_execute hooks / session-wide execution options are assumed not taken; an undecidable branch containing an autoflush or connection call is reported as an unrecognised shape). Relationship-collection mutation, cascades, do_orm_execute hooks, bulk UPDATE/DELETE statements (which also autoflush), Session.scalars/scalar with executemany parameters and AsyncSession / scoped_session proxies are not modelled; lazy loads are exercised on a viewonly one-to-many. The theorem content is mostly definitional once the flush and the decision table are specified; the tie to the code is the translator + differential + metamorphic run. No _partial theorems.",
+    "technique": "Lean 4 proofs (induction over the pending list, idempotence, decision table regenerated by an ast translator) + differential correspondence + metamorphic twin execution on SQLite",
     "design_ref": "DESIGN.md §3 C30–C48 (C47)",
 }
 
@@ -42,6 +60,189 @@ def _tmpdir():
 
         atexit.register(shutil.rmtree, _TMP, True)
     return _TMP
+
+
+KINDS = ("q", "cnt", "core", "ccnt", "txt", "tcnt", "ex", "exs", "lq", "lcnt")
+LEGACY_KINDS = ("lq", "lcnt")
+# Lean names of the kinds (Model/Autoflush.lean `Kind`, Gen/AutoflushCfg.lean `plugin<Name>`)
+KIND_LEAN = {"q": "Entity", "cnt": "Count", "core": "Core", "ccnt": "CoreCount", "txt": "Text", "tcnt": "TextCount",
+             "ex": "ExistsSel", "exs": "ExistsDot", "lq": "Legacy", "lcnt": "LegacyCount"}
+SHAPE = {"q": "ent", "cnt": "num", "core": "id", "ccnt": "num", "txt": "id", "tcnt": "num", "ex": "flag", "exs": "flag", "lq": "id", "lcnt": "num"}
+VIAS20 = ("execute", "scalars", "scalar")
+VIAS_LEGACY = {"lq": ("all", "first", "one", "count"), "lcnt": ("all", "first", "one")}
+DEFAULT_VIA = {"lq": "all", "lcnt": "one"}
+
+
+def vias_of(kind):
+    return VIAS_LEGACY[kind] if kind in LEGACY_KINDS else VIAS20
+
+
+def core_path_events(fn, scalar_result):
+    """Symbolic walk of Session._execute_internal along the path a statement WITHOUT the ORM
+    compile-state plugin takes (compile_state_cls is None, no do_orm_execute hooks), with
+    `_scalar_result` fixed: the ordered list of 'AF' (self._autoflush()), 'SCALAR'
+    (conn.scalar(...)), 'EXEC' (conn.execute(...)) events up to the first `return`.
+    Returns None when a branch whose test cannot be decided contains one of those calls."""
+    import ast
+
+    env = {"compile_state_cls": False, "_scalar_result": bool(scalar_result)}
+
+    def ev(t):
+        if isinstance(t, ast.Name):
+            return env.get(t.id)
+        if isinstance(t, ast.UnaryOp) and isinstance(t.op, ast.Not):
+            v = ev(t.operand)
+            return None if v is None else not v
+        if isinstance(t, ast.BoolOp):
+            vs = [ev(x) for x in t.values]
+            if isinstance(t.op, ast.And):
+                return False if any(v is False for v in vs) else (None if any(v is None for v in vs) else True)
+            return True if any(v is True for v in vs) else (None if any(v is None for v in vs) else False)
+        if (
+            isinstance(t, ast.Compare)
+            and len(t.ops) == 1
+            and isinstance(t.left, ast.Name)
+            and t.left.id == "compile_state_cls"
+            and isinstance(t.comparators[0], ast.Constant)
+            and t.comparators[0].value is None
+        ):
+            if isinstance(t.ops[0], ast.IsNot):
+                return False
+            if isinstance(t.ops[0], ast.Is):
+                return True
+        return None
+
+    def calls(node):
+        out = []
+        for n in ast.walk(node):
+            if isinstance(n, ast.Call) and isinstance(n.func, ast.Attribute) and isinstance(n.func.value, ast.Name):
+                who, what = n.func.value.id, n.func.attr
+                if who == "self" and what == "_autoflush":
+                    out.append((n.lineno, n.col_offset, "AF"))
+                elif who == "conn" and what == "scalar":
+                    out.append((n.lineno, n.col_offset, "SCALAR"))
+                elif who == "conn" and what == "execute":
+                    out.append((n.lineno, n.col_offset, "EXEC"))
+        return [e[2] for e in sorted(out)]
+
+    events = []
+
+    class Unrecognised(Exception):
+        pass
+
+    def walk(stmts):
+        for st in stmts:
+            if isinstance(st, ast.If):
+                v = ev(st.test)
+                if v is None:
+                    if calls(st):
+                        raise Unrecognised()
+                    continue
+                if walk(st.body if v else st.orelse):
+                    return True
+            else:
+                events.extend(calls(st))
+                if isinstance(st, ast.Return):
+                    return True
+        return False
+
+    try:
+        walk(fn.body)
+    except Unrecognised:
+        return None
+    return events
+
+
+def parse_execute_internal():
+    """(coreAutoflushBeforeScalarFastPath, coreAutoflushBeforeExecute) read off the current
+    orm/session.py, or None where the shape is not recognised"""
+    import ast
+
+    from harness import vlib
+
+    src = open(os.path.join(vlib.REPO, "lib", "sqlalchemy", "orm", "session.py")).read()
+    fns = [
+        n
+        for n in ast.walk(ast.parse(src))
+        if isinstance(n, ast.FunctionDef)
+        and n.name == "_execute_internal"
+        and not any(isinstance(d, ast.Name) and d.id == "overload" for d in n.decorator_list)
+    ]
+    if len(fns) != 1:
+        return None, None
+    res = []
+    for scalar_result in (True, False):
+        evs = core_path_events(fns[0], scalar_result)
+        db = [i for i, e in enumerate(evs or []) if e in ("SCALAR", "EXEC")]
+        res.append(None if not db else ("AF" in evs[: db[0]]))
+    return res[0], res[1]
+
+
+Q_SHAPES = (("all", 0), ("all", 1), ("a", 0, 1), ("a", 1, 1), ("pid", 0), ("join", 1))
+
+
+def plugin_table():
+    """kind -> does the real statement carry compile_state_plugin == 'orm' (None: the q-shapes of
+    one kind disagree)"""
+    from sqlalchemy.orm import Session
+
+    w = world()
+    sess = Session(w.engine)
+    tab = {}
+    try:
+        for kind in KINDS:
+            vals = set()
+            for q in Q_SHAPES:
+                if kind in LEGACY_KINDS:
+                    stmt = legacy_query(w, sess, kind, q, "on")._statement_20()
+                else:
+                    stmt = build_stmt(w, kind, q)[0]
+                vals.add(stmt._propagate_attrs.get("compile_state_plugin", None) == "orm")
+            tab[kind] = vals.pop() if len(vals) == 1 else None
+    finally:
+        sess.close()
+    return tab
+
+
+def gen(ctx):
+    """Translator -> lean/SaVerif/Gen/AutoflushCfg.lean: (1) ordering facts of
+    Session._execute_internal on the Core path (ast of the current orm/session.py), (2) which of
+    the generated statement kinds carry the ORM compile-state plugin (real statements)."""
+    before_scalar, before_exec = parse_execute_internal()
+    ctx.obligation(
+        "translator: Session._execute_internal, Core path with _scalar_result=True, reaches conn.scalar()/conn.execute() through decidable branches",
+        before_scalar is not None,
+        "shape not recognised; coreAutoflushBeforeScalarFastPath cannot be regenerated",
+    )
+    ctx.obligation(
+        "translator: Session._execute_internal, Core path with _scalar_result=False, reaches conn.execute() through decidable branches",
+        before_exec is not None,
+        "shape not recognised; coreAutoflushBeforeExecute cannot be regenerated",
+    )
+    tab = plugin_table()
+    ctx.obligation(
+        "translator: every generated statement kind is uniformly ORM-plugin or plugin-less",
+        all(v is not None for v in tab.values()),
+        "kinds with mixed compile_state_plugin: %s" % sorted(k for k, v in tab.items() if v is None),
+    )
+    if before_scalar is None or before_exec is None or any(v is None for v in tab.values()):
+        return
+    b = lambda x: "true" if x else "false"  # noqa: E731
+    ctx.write_gen(
+        "AutoflushCfg",
+        "namespace SaVerif.Gen.AutoflushCfg\n"
+        "/-- orm/session.py `Session._execute_internal`, path of a statement without the ORM compile-state\n"
+        "    plugin and `_scalar_result=True` (Session.scalar): `self._autoflush()` (#9809) is called before\n"
+        "    the statement reaches the connection (`return conn.scalar(...)` fast path) -/\n"
+        "def coreAutoflushBeforeScalarFastPath : Bool := %s\n"
+        "/-- same path with `_scalar_result=False` (Session.execute / .scalars): `self._autoflush()` is\n"
+        "    called before `conn.execute(...)` -/\n"
+        "def coreAutoflushBeforeExecute : Bool := %s\n"
+        "/-- harness/props/c47.py statement kinds: `stmt._propagate_attrs[\"compile_state_plugin\"] == \"orm\"` -/\n"
+        % (b(before_scalar), b(before_exec))
+        + "".join("def plugin%s : Bool := %s\n" % (KIND_LEAN[k], b(tab[k])) for k in KINDS)
+        + "end SaVerif.Gen.AutoflushCfg\n",
+    )
 
 
 class World:
@@ -86,25 +287,58 @@ def world():
     return _W
 
 
+def text_sql(q):
+    """(sql selecting the ids, params) — the Core text() form of query q"""
+    name = q[0]
+    if name == "all":
+        return "select id from %s order by id" % ("p", "c")[q[1]], {}
+    if name == "a":
+        return "select id from %s where a = :v order by id" % ("p", "c")[q[1]], {"v": q[2]}
+    if name == "pid":
+        return "select id from c where pid = :v order by id", {"v": q[1]}
+    return "select distinct p.id from p join c on c.pid = p.id where c.a = :v order by p.id", {"v": q[1]}
+
+
 def build_stmt(w, kind, q):
-    """kind in q / cnt / core (select on the Table) / lq, lcnt (legacy Query of Table columns only)"""
+    """-> (statement, params).  kind: q (ORM entities) / cnt (ORM count) / core (select on the
+    Table) / ccnt (Core count on the Table) / txt, tcnt (text()) / ex (select(exists().where(<ORM
+    criteria>))) / exs (exists().where(<ORM criteria>).select()); lq, lcnt are legacy Query
+    objects (legacy_query)"""
     sa = w.sa
     P, C = w.P, w.C
     name = q[0]
-    if kind in ("lq", "lcnt"):
-        return None
-    if kind == "core":
+    if kind in LEGACY_KINDS:
+        return None, None
+    if kind in ("txt", "tcnt"):
+        sql, params = text_sql(q)
+        if kind == "tcnt":
+            sql = "select count(*) from (%s)" % sql
+        return sa.text(sql), params
+    if kind in ("core", "ccnt"):
         pt, ct = P.__table__, C.__table__
         tabs = [pt, ct]
         if name == "all":
+            t, crit, join = tabs[q[1]], None, None
+        elif name == "a":
             t = tabs[q[1]]
-            return sa.select(t.c.id).order_by(t.c.id)
-        if name == "a":
-            t = tabs[q[1]]
-            return sa.select(t.c.id).where(t.c.a == q[2]).order_by(t.c.id)
-        if name == "pid":
-            return sa.select(ct.c.id).where(ct.c.pid == q[1]).order_by(ct.c.id)
-        return sa.select(pt.c.id).join(ct, ct.c.pid == pt.c.id).where(ct.c.a == q[1]).distinct().order_by(pt.c.id)
+            crit, join = (t.c.a == q[2]), None
+        elif name == "pid":
+            t, crit, join = ct, (ct.c.pid == q[1]), None
+        else:
+            t, crit, join = pt, (ct.c.a == q[1]), (ct, ct.c.pid == pt.c.id)
+        if kind == "core":
+            st = sa.select(t.c.id)
+            if join:
+                st = st.join(*join).distinct()
+            if crit is not None:
+                st = st.where(crit)
+            return st.order_by(t.c.id), {}
+        st = sa.select(sa.func.count(sa.distinct(t.c.id))).select_from(t)
+        if join:
+            st = st.join(*join)
+        if crit is not None:
+            st = st.where(crit)
+        return st, {}
     if name == "all":
         T = w.cls[q[1]]
         crit, ent, join = None, T, None
@@ -115,19 +349,26 @@ def build_stmt(w, kind, q):
         crit, ent, join = (C.pid == q[1]), C, None
     else:
         crit, ent, join = (C.a == q[1]), P, (C, C.pid == P.id)
+    if kind in ("ex", "exs"):
+        # Core exists(): FROM is derived from the ORM criteria
+        ex = sa.exists()
+        if join:
+            ex = ex.where(join[1])
+        ex = ex.where(crit if crit is not None else ent.id >= 0)
+        return (sa.select(ex) if kind == "ex" else ex.select()), {}
     if kind == "q":
         st = sa.select(ent)
         if join:
             st = st.join(*join).distinct()
         if crit is not None:
             st = st.where(crit)
-        return st.order_by(ent.id)
+        return st.order_by(ent.id), {}
     st = sa.select(sa.func.count(sa.distinct(ent.id))).select_from(ent)
     if join:
         st = st.join(*join)
     if crit is not None:
         st = st.where(crit)
-    return st
+    return st, {}
 
 
 def legacy_query(w, sess, kind, q, m):
@@ -171,7 +412,116 @@ def eval_ref(rows, q):
     )
 
 
-READ_KINDS = ("q", "cnt", "core", "lq", "lcnt", "get", "kids")
+READ_KINDS = KINDS + ("get", "kids")
+
+
+def op_via(op):
+    """entry point of a statement op (kind, mode, q[, via]); 3-tuples are the former shape"""
+    return op[3] if len(op) > 3 else DEFAULT_VIA.get(op[0], "execute")
+
+
+def show_val(shape, x):
+    if shape == "ent":
+        return "%d=%s" % (x.id, x.a)
+    if shape == "id":
+        return "%d" % x
+    if shape == "num":
+        return "#%d" % x
+    return "T" if x else "F"
+
+
+def show_list(shape, xs):
+    return "[" + " ".join(show_val(shape, x) for x in xs) + "]"
+
+
+def show_one(shape, x):
+    return "None" if x is None else "(" + show_val(shape, x) + ")"
+
+
+def run_stmt(w, sess, kind, q, m, via, keep):
+    """run one statement op through its entry point on the real Session; -> (canonical output,
+    is the statement plugin-less (Core) for Session._execute_internal)"""
+    from sqlalchemy.exc import MultipleResultsFound
+
+    shape = SHAPE[kind]
+    if kind in LEGACY_KINDS:
+        qq = legacy_query(w, sess, kind, q, m)
+        if via == "all":
+            return show_list(shape, [r[0] for r in qq.all()]), False
+        if via == "first":
+            r = qq.first()
+            return show_one(shape, None if r is None else r[0]), False
+        if via == "count":
+            return show_one("num", qq.count()), False
+        try:
+            if kind == "lcnt":
+                return show_one(shape, qq.scalar()), False
+            r = qq.one_or_none()
+            return show_one(shape, None if r is None else r[0]), False
+        except MultipleResultsFound:
+            return "multi", False
+    stmt, params = build_stmt(w, kind, q)
+    is_core = stmt._propagate_attrs.get("compile_state_plugin", None) != "orm"
+    if m == "opt":
+        stmt = stmt.execution_options(autoflush=False)
+    if via == "execute":
+        xs = [r[0] for r in sess.execute(stmt, params).all()]
+    elif via == "scalars":
+        xs = sess.scalars(stmt, params).all()
+    else:
+        x = sess.scalar(stmt, params)
+        if shape == "ent" and x is not None:
+            keep.append(x)
+        return show_one(shape, x), is_core
+    if shape == "ent":
+        keep.extend(xs)
+    return show_list(shape, xs), is_core
+
+
+def expected_out(flushed, kind, q, via):
+    """the canonical output the pending state (dict reference) demands"""
+    t, ids = eval_ref(flushed, q)
+    shape = SHAPE[kind]
+
+    class E:  # entity stand-in
+        def __init__(self, i, a):
+            self.id, self.a = i, a
+
+    if shape == "ent":
+        xs = [E(i, flushed[(t, i)][0]) for i in ids]
+    elif shape == "id":
+        xs = ids
+    elif shape == "num":
+        xs = [len(ids)]
+    else:
+        xs = [bool(ids)]
+    if via in ("execute", "scalars", "all"):
+        return show_list(shape, xs)
+    if via in ("scalar", "first"):
+        return show_one(shape, xs[0] if xs else None)
+    if via == "count":
+        return show_one("num", len(xs))
+    return "multi" if len(xs) > 1 else show_one(shape, xs[0] if xs else None)
+
+
+MISS_KEY = {
+    "execute": "query-misses-pending-change",
+    "all": "query-misses-pending-change",
+    "scalars": "scalars-entrypoint-misses-pending-change",
+    "scalar": "scalar-entrypoint-misses-pending-change",
+    "first": "legacy-first-misses-pending-change",
+    "one": "legacy-one-misses-pending-change",
+    "count": "legacy-count-misses-pending-change",
+}
+DIFF_KEY = {
+    "execute": "autoflush-differs-from-explicit-flush",
+    "all": "autoflush-differs-from-explicit-flush",
+    "scalars": "scalars-entrypoint-differs-from-explicit-flush",
+    "scalar": "scalar-entrypoint-differs-from-explicit-flush",
+    "first": "legacy-first-differs-from-explicit-flush",
+    "one": "legacy-one-differs-from-explicit-flush",
+    "count": "legacy-count-differs-from-explicit-flush",
+}
 
 
 def run_history(case, twin=False):
@@ -222,10 +572,11 @@ def _run_history(case, twin):
         poisoned[0] = False
         prune()
 
-    def reading(m, present=False):
+    def reading(m, present=False, core=False):
         """context for a reading op; in the twin run: flush first when the property says the
-        autoflushing session would, then forbid autoflush"""
-        if twin and af and m == "on" and not present:
+        autoflushing session would (a statement without the ORM plugin has no autoflush execution
+        option: #9809, it flushes unless inside no_autoflush), then forbid autoflush"""
+        if twin and af and (m == "on" or (core and m == "opt")) and not present:
             sess.flush()
         if m == "ctx" or twin:
             return sess.no_autoflush
@@ -284,45 +635,23 @@ def _run_history(case, twin):
                         sess.delete(o)
                         flushed.pop(k, None)
                         outs.append("d")
-                    elif kind in ("q", "cnt", "core", "lq", "lcnt"):
-                        m, q = op[1], op[2]
-                        stmt = build_stmt(w, kind, q)
-                        if m == "opt" and stmt is not None:
-                            stmt = stmt.execution_options(autoflush=False)
-                        with reading(m):
-                            if kind == "lq":
-                                got = [r[0] for r in legacy_query(w, sess, kind, q, m).all()]
-                                outs.append("{" + " ".join(str(x) for x in got) + "}")
-                                res = None
-                            elif kind == "lcnt":
-                                got = legacy_query(w, sess, kind, q, m).scalar()
-                                outs.append("#%d" % got)
-                                res = None
-                            else:
-                                res = sess.execute(stmt)
-                            if res is None:
-                                pass
-                            elif kind == "q":
-                                objs = res.scalars().all()
-                                keep.extend(objs)
-                                got = [(o.id, o.a) for o in objs]
-                                outs.append("[" + " ".join("%d=%s" % x for x in got) + "]")
-                            elif kind == "cnt":
-                                got = res.scalar()
-                                outs.append("#%d" % got)
-                            else:
-                                got = [r[0] for r in res]
-                                outs.append("{" + " ".join(str(x) for x in got) + "}")
+                    elif kind in KINDS:
+                        m, q, via = op[1], op[2], op_via(op)
+                        if via not in vias_of(kind):
+                            raise ValueError(op)
+                        core = kind not in LEGACY_KINDS and build_stmt(w, kind, q)[0]._propagate_attrs.get("compile_state_plugin", None) != "orm"
+                        with reading(m, core=core):
+                            got, _ = run_stmt(w, sess, kind, q, m, via, keep)
+                        outs.append(got)
                         prune()
                         # ---- reference
-                        flushing = af and (m == "on" or (kind == "core" and m == "opt"))
+                        flushing = af and (m == "on" or (core and m == "opt"))
                         if flushing and not twin:
                             if poisoned[0]:
                                 problems.append(("duplicate-insert-not-detected", "op %s" % (op,)))
-                            t, ids = eval_ref(flushed, q)
-                            exp = [(i, flushed[(t, i)][0]) for i in ids] if kind == "q" else (len(ids) if kind in ("cnt", "lcnt") else ids)
+                            exp = expected_out(flushed, kind, q, via)
                             if got != exp:
-                                problems.append(("query-misses-pending-change", "%s returned %s, pending state says %s" % (op, got, exp)))
+                                problems.append((MISS_KEY[via], "%s returned %s, pending state says %s" % (op, got, exp)))
                     elif kind == "get":
                         m, k = op[1], (op[2], op[3])
                         present = ident(k) is not None
@@ -395,8 +724,8 @@ def enc_op(op):
         return "add:%d:%d:%d:%s" % (op[1], op[2], op[3], "N" if op[4] is None else op[4])
     if k == "setp":
         return "setp:%d:%d:%s" % (op[1], op[2], "N" if op[3] is None else op[3])
-    if k in ("q", "cnt", "core", "lq", "lcnt"):
-        return "%s:%s:%s" % (k, op[1], enc_q(op[2]))
+    if k in KINDS:
+        return "%s:%s:%s:%s" % (k, op[1], op_via(op), enc_q(op[2]))
     return ":".join(str(x) for x in op)
 
 
@@ -420,6 +749,26 @@ def rand_mode(rng):
     return rng.choice(["on", "on", "on", "opt", "ctx"])
 
 
+CORE_KINDS = ("core", "ccnt", "txt", "tcnt", "ex", "exs")
+
+
+def rand_read(rng, n):
+    """a statement op: kind x entry point x mode x query"""
+    r = rng.random()
+    if r < 0.30:
+        kind = "q"
+    elif r < 0.45:
+        kind = "cnt"
+    elif r < 0.85:
+        kind = rng.choice(CORE_KINDS)
+    else:
+        kind = rng.choice(LEGACY_KINDS)
+    vias = vias_of(kind)
+    # Session.execute is the entry point of about half of the 2.0-style statements
+    via = vias[0] if rng.random() < 0.4 else rng.choice(vias)
+    return (kind, rand_mode(rng), rand_q(rng, n), via)
+
+
 def gen_random(rng, tier):
     n = rng.choice([2, 3, 3, 4])
     ops = []
@@ -430,8 +779,8 @@ def gen_random(rng, tier):
                 ops.append(("add", t, i, rng.randint(0, 2), rng.randrange(n) if t == 1 and rng.random() < 0.8 else None))
     ops.append(("commit",))
     if rng.random() < 0.7:
-        ops.append(("q", "on", ("all", 0)))
-        ops.append(("q", "on", ("all", 1)))
+        ops.append(("q", "on", ("all", 0), "execute"))
+        ops.append(("q", "on", ("all", 1), "execute"))
     m = rng.randint(5, 14 if tier == "quick" else 24)
     for _ in range(m):
         t, i = rng.randrange(2), rng.randrange(n)
@@ -444,14 +793,8 @@ def gen_random(rng, tier):
             ops.append(("setp", 1, i, rng.choice([None] + list(range(n)))))
         elif r < 0.46:
             ops.append(("del", t, i))
-        elif r < 0.62:
-            ops.append(("q", rand_mode(rng), rand_q(rng, n)))
-        elif r < 0.70:
-            ops.append(("cnt", rand_mode(rng), rand_q(rng, n)))
-        elif r < 0.74:
-            ops.append(("core", rng.choice(["on", "on", "ctx"]), rand_q(rng, n)))
         elif r < 0.79:
-            ops.append((rng.choice(["lq", "lcnt"]), rand_mode(rng), rand_q(rng, n)))
+            ops.append(rand_read(rng, n))
         elif r < 0.88:
             ops.append(("get", rand_mode(rng), t, i))
         elif r < 0.94:
@@ -460,34 +803,72 @@ def gen_random(rng, tier):
             ops.append(("flush",))
         else:
             ops.append(("commit",))
-    ops.append(("q", "on", ("all", 0)))
-    ops.append(("q", "on", ("all", 1)))
+    ops.extend(probes(rng.randrange(2), rng.randint(0, 2)))
+    ops.append(("q", "on", ("all", 0), "execute"))
+    ops.append(("q", "on", ("all", 1), "execute"))
     return n, ops
+
+
+def probes(t, v):
+    """observation of the DATABASE as it is (counts inside no_autoflush): exposes whether the
+    operations before it flushed — the twin session, which flushes explicitly wherever the property
+    says an autoflush happens, must show the same"""
+    return [("cnt", "ctx", ("all", t), "execute"), ("ccnt", "ctx", ("a", t, v), "scalars")]
+
+
+SMALL_PREFIX = [("add", 0, 0, 1, None), ("add", 1, 0, 1, 0), ("commit",), ("q", "on", ("all", 0), "execute"), ("q", "on", ("all", 1), "execute")]
+SMALL_WRITES = [
+    ("add", 0, 1, 2, None), ("add", 1, 1, 2, 0), ("seta", 1, 0, 2), ("seta", 0, 0, 2), ("setp", 1, 0, None), ("del", 1, 0), ("del", 0, 0),
+]
+SMALL_READS = [
+    ("q", "on", ("a", 1, 2), "scalar"), ("ccnt", "on", ("a", 1, 2), "scalar"), ("txt", "on", ("pid", 0), "scalar"), ("ex", "on", ("a", 1, 2), "scalar"),
+    ("q", "on", ("a", 1, 2), "execute"), ("q", "opt", ("a", 1, 2), "execute"), ("q", "on", ("join", 2), "execute"), ("cnt", "on", ("pid", 0), "execute"),
+    ("cnt", "ctx", ("pid", 0), "execute"), ("get", "on", 1, 1), ("get", "on", 1, 0), ("kids", "on", 0), ("kids", "ctx", 0),
+    ("core", "on", ("all", 1), "execute"), ("lq", "on", ("all", 1), "all"), ("lcnt", "on", ("a", 1, 2), "one"), ("lq", "opt", ("pid", 0), "all"),
+]
+SMALL_OTHER = [("flush",), ("commit",)]
 
 
 def small_scope(length):
     import itertools
 
-    prefix = [("add", 0, 0, 1, None), ("add", 1, 0, 1, 0), ("commit",), ("q", "on", ("all", 0)), ("q", "on", ("all", 1))]
-    alpha = [
-        ("add", 0, 1, 2, None), ("add", 1, 1, 2, 0), ("seta", 1, 0, 2), ("seta", 0, 0, 2), ("setp", 1, 0, None), ("del", 1, 0), ("del", 0, 0),
-        ("q", "on", ("a", 1, 2)), ("q", "opt", ("a", 1, 2)), ("q", "on", ("join", 2)), ("cnt", "on", ("pid", 0)), ("cnt", "ctx", ("pid", 0)),
-        ("get", "on", 1, 1), ("get", "on", 1, 0), ("kids", "on", 0), ("kids", "ctx", 0), ("core", "on", ("all", 1)), ("lq", "on", ("all", 1)), ("lcnt", "on", ("a", 1, 2)), ("lq", "opt", ("pid", 0)), ("flush",), ("commit",),
-    ]
+    alpha = SMALL_WRITES + SMALL_READS + SMALL_OTHER
     for seq in itertools.product(alpha, repeat=length):
-        yield prefix + list(seq) + [("q", "on", ("all", 1))]
+        yield SMALL_PREFIX + list(seq) + probes(1, 2) + [("q", "on", ("all", 1), "execute")]
+
+
+def entry_matrix(thorough=False):
+    """every statement kind x every entry point (mode on), as the FIRST statement after each single
+    pending change (and after two pairs of changes), followed by the same statement through the
+    list entry point: exhaustive in (write, kind, via); the modes opt / ctx for three of the nine
+    change sets (quick) or all of them (thorough)"""
+    qs = {0: ("all", 1), 1: ("a", 1, 2), 2: ("pid", 0), 3: ("join", 2)}
+    writes = [[w] for w in SMALL_WRITES] + [[("add", 1, 1, 2, 0), ("seta", 1, 0, 2)], [("del", 1, 0), ("add", 0, 1, 2, None)]]
+    j = 0
+    for wi, ws in enumerate(writes):
+        for kind in KINDS:
+            for via in vias_of(kind):
+                for m in ("on", "opt", "ctx") if (thorough or wi in (1, 2, 5)) else ("on",):
+                    q = qs[j % 4]
+                    j += 1
+                    yield SMALL_PREFIX + ws + [(kind, m, q, via)] + probes(1, 2) + [(kind, "on", q, vias_of(kind)[0]), ("q", "on", ("all", 1), "execute")]
 
 
 def gen_cases(ctx, deep=False):
     thorough = ctx.tier == "thorough" or deep
-    nrand = 5000 if thorough else 600
+    nrand = 5000 if thorough else 400
     for _ in range(nrand):
         n, ops = gen_random(ctx.rng, ctx.tier)
         yield {"n": n, "af": ctx.rng.choice([1, 1, 1, 0]), "ops": ops, "src": "random"}
+    for seq in entry_matrix(thorough):
+        yield {"n": 2, "af": 1, "ops": seq, "src": "entry-matrix"}
+    nfix = len(SMALL_PREFIX)
     for seq in small_scope(2):
-        yield {"n": 2, "af": 1, "ops": seq, "src": "small2"}
+        # every (pending change, reading operation) pair; the other pairs sampled in the quick tier
+        if thorough or (seq[nfix] in SMALL_WRITES and seq[nfix + 1] in SMALL_READS) or ctx.rng.random() < 0.4:
+            yield {"n": 2, "af": 1, "ops": seq, "src": "small2"}
     for seq in small_scope(3):
-        if thorough or ctx.rng.random() < 0.04:
+        if thorough or ctx.rng.random() < 0.015:
             yield {"n": 2, "af": 1, "ops": seq, "src": "small3"}
 
 
@@ -510,8 +891,15 @@ def check_case(case):
         if len(touts) == len(outs):
             for j, (op, a, b) in enumerate(zip(case["ops"], outs, touts)):
                 if op[0] in READ_KINDS and a != b:
-                    problems.append(("autoflush-differs-from-explicit-flush",
-                                     "op #%d %s: autoflushing session -> %s, flush()-then-query -> %s" % (j, op, a, b)))
+                    key = DIFF_KEY[op_via(op)] if op[0] in KINDS else "autoflush-differs-from-explicit-flush"
+                    if op[1] == "ctx":
+                        # the observing op cannot flush: an earlier autoflushing operation did not do what flush() does
+                        prev = [o for o in case["ops"][:j] if o[0] in READ_KINDS and (o[1] == "on" or (o[1] == "opt" and o[0] in CORE_KINDS))]
+                        if prev:
+                            key = "unflushed-state-after-autoflushing-%s" % (
+                                "%s-via-%s" % (prev[-1][0], op_via(prev[-1])) if prev[-1][0] in KINDS else prev[-1][0]
+                            )
+                    problems.append((key, "op #%d %s: autoflushing session -> %s, flush()-then-query -> %s" % (j, op, a, b)))
                     break
         elif not tprobs:
             problems.append(("autoflush-differs-from-explicit-flush", "histories diverge: %s vs %s" % (outs, touts)))
@@ -532,10 +920,17 @@ def _budget_exhausted(ctx, t0, n):
 
 def run(ctx, deep=False):
     ctx.rule = (
-        "histories of add/set/delete (pending changes) interleaved with ORM queries (filters, join), counts, Core selects, Session.get and lazy "
-        "loads, each with autoflush on / execution option off / no_autoflush, plus flush/commit, on a real Session over SQLite (2-4 ids x 2 "
-        "tables); random (seeded) + all 2-op (4% quick / all thorough 3-op) sequences over a 22-letter alphabet; every autoflush=True history is run "
-        "twice (autoflush vs explicit flush + no_autoflush); non-trivial = at least one reading operation executed with pending changes"
+        "histories of add/set/delete (pending changes) interleaved with statements of 10 kinds (ORM entity select with filters/join, ORM count, "
+        "Core select and Core count on the Table, text() ids and text() count, select(exists().where(ORM criteria)), exists().where().select(), "
+        "legacy Query ids / count) each through every applicable entry point (Session.execute().all(), Session.scalars().all(), Session.scalar(); "
+        "Query.all/first/one_or_none|scalar/count), Session.get and lazy loads, each with autoflush on / execution option off / no_autoflush, plus "
+        "flush/commit, on a real Session over SQLite (2-4 ids x 2 tables); random (seeded) + the exhaustive matrix {9 pending-change sets} x {kind x "
+        "entry point} (mode on; x {3 modes} for 3 of the sets quick / all thorough) with the statement as the FIRST one after the change + 2-op "
+        "(all change-then-read pairs + 40% of the rest quick / all thorough) and 3-op (1.5% quick / all thorough) sequences over a 26-letter alphabet, every generated history ending with no_autoflush count probes that expose whether the operations before them flushed; every autoflush=True history is run twice (autoflush vs explicit flush + no_autoflush); "
+        "non-trivial = at least one reading operation executed with pending changes"
+    )
+    ctx.trusted.append(
+        "translator of harness/props/c47.py: symbolic walk of Session._execute_internal (Core path; event-hook and session-option branches assumed not taken)"
     )
     import time
 
@@ -549,6 +944,9 @@ def run(ctx, deep=False):
         ctx.case((case["af"], jc["ops"]), nontrivial=True)
         ctx.count("src=" + case["src"])
         ctx.count("af=%d" % case["af"])
+        for op in case["ops"]:
+            if op[0] in KINDS:
+                ctx.count("stmt=%s/%s" % (op[0], op_via(op)))
         if "integrity" in line:
             ctx.count("outcome-seen=integrity")
         for key, detail in problems:
@@ -564,7 +962,12 @@ def run(ctx, deep=False):
             ctx.sample({"case": jc, "impl": line})
     if ctx.driver_ok():
         ctx.correspond("corr/c47:session-on-sqlite-vs-Model.Autoflush", cases, impl_out, ctx.driver(reqs))
-        bad = ["autoflush run 2 1 add:2:0:1:N", "autoflush run 2 1 q:on:pid:7", "autoflush run 2 2 -", "autoflush run 2 1 kids:opt:0", "autoflush run 2 1 q:maybe:all:0"]
+        bad = [
+            "autoflush run 2 1 add:2:0:1:N", "autoflush run 2 1 q:on:execute:pid:7", "autoflush run 2 2 -", "autoflush run 2 1 kids:opt:0",
+            "autoflush run 2 1 q:maybe:execute:all:0", "autoflush run 2 1 q:on:all:0", "autoflush run 2 1 q:on:all:all:0",
+            "autoflush run 2 1 lq:on:scalar:all:0", "autoflush run 2 1 lcnt:on:count:all:0", "autoflush run 2 1 zz:on:execute:all:0",
+            "autoflush run 2 1 txt:on:sideways:all:0", "autoflush run 2 1 ex:on:scalar", "autoflush run 2 1 ccnt:on:scalar:a:2:1",
+        ]
         ctx.correspond("corr/c47:malformed-rejected", [{"req": b} for b in bad], ["bad-op"] * len(bad), ctx.driver(bad))
 
 
